@@ -75,9 +75,9 @@ func main() {
 	}
 	r := vh.NewRand(o.Seed)
 	g := sim.NewGen(r)
-	cases := &vh.Cases{Import: "From MV Require Import C17.Model C10.Model.", Type: "env * list op * option outcome * list string * list (nat * bool)", CheckFn: "C10.Model.check", Shard: 100}
+	cases := &vh.Cases{Import: "From MV Require Import C17.Model C10.Model.", Type: "env * list op * option outcome * list string * list (nat * bool)", CheckFn: "C10.Model.check", Shard: o.Pick(100, 250)}
 
-	ncases := o.Pick(300, 5000)
+	ncases := o.Pick(300, 4000)
 	reps := 1
 	if o.Thorough() {
 		reps = 2
@@ -88,9 +88,16 @@ func main() {
 		obs   []sim.Obs
 	}
 	t0 := time.Now()
+	corpus := g.Corpus()
+	ncases += len(corpus)
 	jobs := make([]*job, ncases)
 	for ci := range jobs {
-		c := g.RandomCase(res, true)
+		var c *sim.Case
+		if ci < len(corpus) {
+			c = corpus[ci]
+		} else {
+			c = g.RandomCase(res, true)
+		}
 		j := &job{c: c}
 		j.sched = append(j.sched, sim.Sched{Workers: 1}) // baseline: one worker, no noise
 		for k := 0; k < reps; k++ {
